@@ -302,8 +302,27 @@ def main(chk):
     chk.count("distinct_frame_shapes", len(exprs))
 
     # ---- an update does change the trained component (aggregated over the calls of each routine)
+    # Deterministic actors behind a tanh can have an exactly zero gradient for a whole short run (saturated tiny networks): for them the
+    # rule is aggregated over all runs of the check; for every other routine it holds per training run.
+    ACTORS = {"ddpg_update_actor", "sac_update_actor", "td7_update_actor"}
+    agg = {}
+    for (key, ctx), sr in seen_routines.items():
+        if key in ACTORS:
+            a = agg.setdefault(key, {"calls": 0, "trained_changed": {}})
+            a["calls"] += sr["calls"]
+            for t, n in sr["trained_changed"].items():
+                a["trained_changed"][t] = a["trained_changed"].get(t, 0) + n
+    for key, a in agg.items():
+        for t, n in a["trained_changed"].items():
+            if a["calls"] >= 4 and n == 0:
+                chk.fail(f"C05:{key}:never-trains", f"{key} never changed {t}, the component it is documented to train, in {a['calls']} calls over all runs",
+                         {"routine": key, "component": t})
     for (key, ctx), sr in seen_routines.items():       # per training run: a run in which a routine is called but never moves its component
+        if key in ACTORS:
+            continue
         for t, n in sr["trained_changed"].items():
+            if key == "update_critic_and_policy" and t.startswith("policy"):
+                continue           # MR.Q's deterministic policy: same remark as for the actors above (its critic part is checked)
             if sr["calls"] >= 2 and n == 0:
                 chk.fail(f"C05:{key}:never-trains", f"{key} never changed {t}, the component it is documented to train, in the {sr['calls']} calls of one training run",
                          {"routine": key, "component": t, "run": ctx})
